@@ -269,7 +269,7 @@ pub fn run(ctx: &Ctx) -> Report {
     rep.part("three source directories with every combination of four ignore files (one of them: none)", st, serde_json::json!({"combinations": 64}));
     // the ignore file itself may be unreadable: that must not silently mean "nothing is ignored"
     {
-        let w = Worker::new(42, &ctx.pool.bins);
+        let w = Worker::new(142, &ctx.pool.bins);
         let mut jobs = vec![];
         let mut errs = vec![];
         let mut nsites = 0;
